@@ -274,7 +274,12 @@ func (r *runner) await(i int) bool {
 			continue
 		}
 		if ev.Thread != i {
-			// another goroutine moved (a blocked one that should not have): recorded by handle
+			// another goroutine moved (a blocked one that should not have: recorded by handle; or one
+			// that was waiting for the store and got it).  If it is now parked between two steps of a
+			// store operation, goroutine i may be the one waiting for the store: that is no stall.
+			if r.midParkedOther(i) {
+				return r.softAwait(i)
+			}
 			continue
 		}
 	}
